@@ -26,6 +26,8 @@ def random_posterior(rng, ploidy, haps):
     for _ in range(k):
         g = haps[np.sort(rng.integers(0, len(haps), size=ploidy))]
         key = g.tobytes()
+        if rng.random() < 0.5:
+            g = g[rng.permutation(ploidy)]  # the haplotypes of a genotype in any storage order (copies need not be adjacent)
         if key not in seen:
             seen.add(key)
             gens.append(g)
